@@ -7,8 +7,9 @@ import Mathlib.Data.List.Nodup
 C03 - every route to the same operator-with-BC result agrees.
 
 Model-level equalities between the routes:
-* interpreted vs compiled ghost-cell setter and field method vs `make_operator`: one Lean function
-  (`BC.setGhostAll` followed by the `Stencil` kernel) - the content is the correspondence check;
+* interpreted vs compiled ghost-cell setter: two model definitions (`BC.setGhostAll` and `BC.compiledSetter` of
+  `Model/SetterSeq.lean`) proved equal in `Props/C03b.lean`; field method vs `make_operator` and the `out=` contract: memory
+  model `Model/OutAlias.lean`, theorems in `Props/C03c.lean`; matrix route on the array the setter produces: `Props/C18b.lean`;
 * the order in which faces are processed is irrelevant (`BC.setGhostAll_perm`, re-exported);
 * the sparse-matrix route equals the stencil route for every grid class (`Matrix.*_assembled_eq_laplace`, re-exported:
   statements about the assembled entries `rowEntry` that the driver evaluates);
